@@ -76,6 +76,11 @@ pub struct BuildOpts {
     pub capture_debug: bool,
     /// also call `print_par_seq` (stdout is pointed at /dev/null for the duration of the call)
     pub call_print: bool,
+    /// where the top-level builder gets its pool: 0 = first call (nested builders get it explicitly
+    /// too), 1 = last call, after every registration (nested builders get none of their own: they
+    /// follow the outer builder's shared pool slot), 2 = like 1, with a one-thread decoy pool attached
+    /// first and replaced at the end
+    pub pool_attach: u8,
 }
 
 static PRINT_LOCK: Mutex<()> = Mutex::new(());
@@ -111,6 +116,7 @@ impl Default for BuildOpts {
             provide: true,
             capture_debug: false,
             call_print: false,
+            pool_attach: 0,
         }
     }
 }
@@ -127,7 +133,11 @@ pub fn build_builder(
     let mut b = Builder::new();
     #[cfg(feature = "par")]
     if let Some(p) = pool.clone() {
-        b.add_pool(p);
+        if opts.pool_attach == 0 {
+            b.add_pool(p);
+        } else if opts.pool_attach == 2 && bid == 0 {
+            b.add_pool(crate::build::pool(900, 1));
+        }
     }
     let bi = &flat.builders[bid];
     for (i, op) in ops.iter().enumerate() {
@@ -341,6 +351,12 @@ pub fn build_builder(
                     }
                 });
             }
+        }
+    }
+    #[cfg(feature = "par")]
+    if let Some(p) = pool.clone() {
+        if opts.pool_attach != 0 && bid == 0 {
+            b.add_pool(p);
         }
     }
     if opts.capture_debug {
